@@ -256,15 +256,29 @@ func renderWire(b []byte) string {
 	return sb.String()
 }
 
-func wirePayload(b []byte) ([]byte, bool) {
+// wirePayload concatenates the data frames of b; ok says that b is a sequence
+// of whole frames forming one message: first opcode op, continuations after it,
+// FIN on the last frame only, masked as the side requires.
+func wirePayload(b []byte, op byte, masked bool) (out []byte, ok bool) {
 	fs, rest, _ := ref.ParseFrames(b)
-	var out []byte
+	ok = len(rest) == 0
+	var data []ref.Frame
 	for _, f := range fs {
 		if !ref.IsControl(f.H.Op) {
-			out = append(out, f.Payload...)
+			data = append(data, f)
 		}
 	}
-	return out, len(rest) == 0
+	for i, f := range data {
+		want := op
+		if i > 0 {
+			want = ref.OpCont
+		}
+		if f.H.Op != want || f.H.Fin != (i == len(data)-1) || f.H.Masked != masked {
+			ok = false
+		}
+		out = append(out, f.Payload...)
+	}
+	return out, ok
 }
 
 func renderOption(o httphead.Option) string {
@@ -766,7 +780,7 @@ func (s *session) incoming(o op) (wire []byte, payload, ping []byte) {
 }
 
 func (s *session) stepWriteMsg(o op) {
-	wop, _ := s.opcode(o.spec)
+	wop, rop := s.opcode(o.spec)
 	p := s.payload(o, 0)
 	rec := tx.NewRec()
 	var err error
@@ -776,8 +790,8 @@ func (s *session) stepWriteMsg(o op) {
 		err = wsutil.WriteServerMessage(s.dst(rec), wop, p)
 	}
 	s.logf("err=%s wrote=%s", renderErr(err), renderWire(rec.Bytes()))
-	got, ok := wirePayload(rec.Bytes())
-	s.expect(err == nil && ok && bytes.Equal(got, p), "WriteMessage: the wire does not carry the %d-byte payload", len(p))
+	got, ok := wirePayload(rec.Bytes(), rop, s.tpl.Client)
+	s.expect(err == nil && ok && bytes.Equal(got, p), "WriteMessage: the wire does not carry one message with the %d-byte payload", len(p))
 }
 
 func (s *session) stepWriterGet(o op) {
@@ -800,8 +814,9 @@ func (s *session) stepWriterWrite(o op) {
 func (s *session) stepWriterFlush(o op) {
 	err := s.w.Flush()
 	s.logf("err=%s wrote=%s", renderErr(err), renderWire(s.wrec.Bytes()))
-	got, ok := wirePayload(s.wrec.Bytes())
-	s.expect(err == nil && ok && bytes.Equal(got, s.wsent), "Writer: the wire does not carry the %d bytes written", len(s.wsent))
+	_, rop := s.opcode(o.spec)
+	got, ok := wirePayload(s.wrec.Bytes(), rop, s.tpl.Client)
+	s.expect(err == nil && ok && bytes.Equal(got, s.wsent), "Writer: the wire does not carry one message with the %d bytes written", len(s.wsent))
 }
 
 func (s *session) stepWriterPut(o op) {
